@@ -203,6 +203,8 @@ struct World<'a> {
     /// a failure (error, Ok(0)) ever happened
     ever_failed: bool,
     post_panic: bool,
+    /// since the sink panicked only operations that never touch the sink (check_io_error) ran
+    quiet_since_panic: bool,
 }
 
 impl Drop for World<'_> {
@@ -223,7 +225,7 @@ fn build<'a>(cfg: &Cfg, forced: Vec<(u32, u32)>) -> World<'a> {
         None if matches!(cfg.fail, Fail::None) => DeferredWriter::from_write(sink),
         None => DeferredWriter::from_boxed_dyn_write(Box::new(sink)),
     };
-    World { writer: Some(writer), sink: st, stream: Vec::new(), ever_failed: false, post_panic: false }
+    World { writer: Some(writer), sink: st, stream: Vec::new(), ever_failed: false, post_panic: false, quiet_since_panic: false }
 }
 
 #[derive(Debug, Clone)]
@@ -530,6 +532,9 @@ fn replay<'a>(cfg: &Cfg, hist: &[Step], extra: &[(u32, u32)]) -> World<'a> {
         // cheap model upkeep (the full oracle ran when this history was created)
         if let OpResult::Panicked(..) = res {
             w.post_panic = true;
+            w.quiet_since_panic = true;
+        } else if !matches!(step.op, WOp::Check) {
+            w.quiet_since_panic = false;
         }
         let mut sink = w.sink.borrow_mut();
         if sink.failures > b.failures {
@@ -626,7 +631,12 @@ fn transition(cfg: &Cfg, mode: Mode, hist: &[Step], op: &WOp, prefix: &[(u32, u3
         s.chooser.taken[base_len.min(s.chooser.taken.len())..].to_vec()
     };
     if !broken {
-        let just_panicked = matches!(res, OpResult::Panicked(..));
+        // the drop rule also holds when only check_io_error (which never touches the sink) ran since
+        // the sink panicked
+        if !matches!(res, OpResult::Panicked(..)) && !matches!(op, WOp::Check) {
+            w.quiet_since_panic = false;
+        }
+        let just_panicked = matches!(res, OpResult::Panicked(..)) || (w.post_panic && w.quiet_since_panic);
         problems.extend(epilogue(cfg, &mut w, e, just_panicked));
     }
     let (taken_all, diverged) = {
